@@ -273,12 +273,46 @@ def build_example(desc, rng):
     return MgrTwin(make_mgr(mk, sim), probe)
 
 
+class StateTwin:
+    """A placement state component on its own (no manager): an 'episode' is one reset under the
+    episode's seed; the output is where every agent stands and what every cell holds, or the kind of
+    exception of a refused reset.  No steps (nobody expects an action)."""
+
+    def __init__(self, state, grid, agents):
+        self.state, self.grid, self.agents = state, grid, agents
+
+    def reset(self):
+        try:
+            self.state.reset()
+        except Exception as e:  # noqa: BLE001  -- a refused reset is part of the behaviour
+            return ["refused", type(e).__name__]
+        pos = [a.position.tolist() for a in self.agents.values()]
+        cells = [sorted(self.grid[r, c].keys()) if self.grid[r, c] else []
+                 for r in range(self.grid.rows) for c in range(self.grid.cols)]
+        return [pos, cells, list(self.state.agents.keys())]
+
+    def live_after_reset(self, obs):
+        return []
+
+    def probe(self):
+        return []
+
+
+def build_placement(desc, rng):
+    """PositionState / TargetBarriersFreePlacementState / MazePlacementState as gen_C13 builds them."""
+    from . import gen_C13
+    cfg, style = desc
+    state, grid, agents = gen_C13.build(cfg, style)
+    return StateTwin(state, grid, agents)
+
+
 STACKS[0] = build_script
 STACKS[1] = build_corridor
 STACKS[2] = build_grid
 STACKS[3] = build_wrapped
 STACKS[4] = build_adapter
 STACKS[5] = build_example
+STACKS[6] = build_placement
 
 
 def impl(inp):
@@ -362,7 +396,18 @@ def example_desc(rng):
     return [ex, mk, rng.getrandbits(20)]
 
 
-EXTRA_DESC = {3: wrapped_desc, 4: adapter_desc, 5: example_desc}
+def placement_desc(rng):
+    from . import gen_C13
+    kind = rng.choice([0, 1, 1, 2, 2])
+    if rng.random() < 0.5:
+        cfg = gen_C13.rand_cfg(rng, kind)
+    else:       # larger grids, clustered / scattered, target usually placed at random
+        cfg = gen_C13.rand_cfg(rng, kind, rng.randint(3, 7), rng.randint(3, 7),
+                               [rng.randint(0, 1), rng.randint(0, 1), rng.choice([0, 1, 1]), rng.choice([0, 1, 1])])
+    return [cfg, rng.randrange(64)]
+
+
+EXTRA_DESC = {3: wrapped_desc, 4: adapter_desc, 5: example_desc, 6: placement_desc}
 
 
 def nontrivial(inp, out):
@@ -374,6 +419,11 @@ def classify(inp, out):
     if inp[0] == 5:
         from . import gen_C02
         return f"example-{gen_C02.EXAMPLES[inp[1][0]][0]}/{MGR.get(inp[1][1], 'x')}/prefix{min(len(inp[2]), 3)}"
+    if inp[0] == 6:
+        from . import gen_C13
+        cfg = inp[1][0]
+        opts = "".join(c for c, f in zip("nrcs", cfg[5]) if f)
+        return f"placement-{gen_C13.KINDS[cfg[0]]}/{opts or '-'}/prefix{min(len(inp[2]), 3)}"
     if inp[0] == 4:
         kind = "adapter-" + {0: "openspiel", 1: "gym"}[inp[1][0]]
         return f"{kind}/{MGR.get(inp[1][1], 'x')}/prefix{min(len(inp[2]), 3)}"
